@@ -80,9 +80,16 @@ def check(ctx) -> Result:
             f"ALLOWED_GATES is built from {names}", construct=str(names))
     Q = mod.classes.get("QiskitConverter")
     conv = Q.methods["convert"]
-    rd_atomic.guard_dominates(ctx, res, conv, lambda t, n: src(t).replace(" ", "") == "gatenotinALLOWED_GATES",
-                              lambda nd: nd.kind == "stmt" and any(isinstance(x, ast.Call) and src(x.func).startswith("self._add_") for x in ast.walk(nd.ast)),
-                              "D-unsupported-gate-refused", "QiskitConverter.convert", "an unsupported gate is refused before any dispatch")
+    GATE_ADDERS = ("_add_single_qubit_gate", "_add_single_qubit_rotation_gate", "_add_two_qubit_gate", "_add_three_qubit_gate")
+    def _is_dispatch(x):
+        return isinstance(x, ast.Call) and isinstance(x.func, ast.Attribute) and src(x.func.value) == "self" and x.func.attr in GATE_ADDERS
+    dispatchers = [f for f in Q.methods.values() if f.name not in GATE_ADDERS and any(_is_dispatch(x) for x in walk_no_nested(f.node))]
+    if not dispatchers:
+        res.frozen(False, "D-unsupported-gate-refused", "QiskitConverter", conv.site(), conv.qualname, "", "dispatch to the gate-adding methods not recognised", construct="")
+    for f in dispatchers:
+        rd_atomic.guard_dominates(ctx, res, f, lambda t, n: isinstance(t, ast.Compare) and len(t.ops) == 1 and isinstance(t.ops[0], ast.NotIn) and src(t.comparators[0]) == "ALLOWED_GATES",
+                                  lambda nd: nd.kind == "stmt" and any(_is_dispatch(x) for x in ast.walk(nd.ast)),
+                                  "D-unsupported-gate-refused", f.qualname, "an unsupported gate is refused before any dispatch")
     # dispatch is total: no path through a gate-adding method reaches its end without having added a gate (or raised)
     from ..cfg import own_exprs as _own
     def adds_gate(nd):
